@@ -223,16 +223,27 @@ theorem layerLine_canon {LL : Nat} {s : Rat} (hs : s ≠ 0) {l : GLayer} (h : La
     · exact writeField_canonC (by decide) hs h.c)
   exact this
 
-theorem wellLine_canon {s : Rat} (hs : s ≠ 0) (name : Str) {p : Flt × Flt × Flt} (h : PosOK s p) :
-    wellLine SP s name (canonPos s p) = wellLine SP s name p := by
-  have := lineOf_congr [(fS 5, .str name, .str name),
+theorem writeField_rjust5 {name : Str} (hn : name.length ≤ 5) :
+    writeField (fS 5) (.str (rjust name 5)) = writeField (fS 5) (.str name) := by
+  have h1 : fmtVal (fS 5) (.str name) = .ok (rjust name 5) := by rw [fmtVal_s_str (f := fS 5) rfl]; rfl
+  have hl : (rjust name 5).length = 5 := by unfold rjust; simp; omega
+  have h2 : fmtVal (fS 5) (.str (rjust name 5)) = .ok (rjust name 5) := by
+    rw [fmtVal_s_str (f := fS 5) rfl]
+    simp [fS, strTrunc, pad, rjust, hl]
+    omega
+  rw [writeField_of_fits (by simp) (by simp [fS]) h1 (by rw [hl]; exact Nat.le_refl _),
+    writeField_of_fits (by simp) (by simp [fS]) h2 (by rw [hl]; exact Nat.le_refl _)]
+
+theorem wellLine_canon {s : Rat} (hs : s ≠ 0) {name : Str} (hn : name.length ≤ 5) {p : Flt × Flt × Flt} (h : PosOK s p) :
+    wellLine SP s (rjust name 5) (canonPos s p) = wellLine SP s name p := by
+  have := lineOf_congr [(fS 5, .str (rjust name 5), .str name),
       (fF 1, ((canonC 1 s p.1).div s).toVal, (p.1.div s).toVal),
       (fF 1, ((canonC 1 s p.2.1).div s).toVal, (p.2.1.div s).toVal),
       (fF 1, ((canonC 1 s p.2.2).div s).toVal, (p.2.2.div s).toVal)] (by
     intro t ht
     simp only [List.mem_cons, List.not_mem_nil, or_false] at ht
     rcases ht with rfl | rfl | rfl | rfl
-    · rfl
+    · exact writeField_rjust5 hn
     · exact writeField_canonC (by decide) hs h.x
     · exact writeField_canonC (by decide) hs h.y
     · exact writeField_canonC (by decide) hs h.z)
